@@ -95,10 +95,25 @@ fn expected_name(frags_name_order: &[[u16; 13]]) -> String {
 /// non-deleted slot in order.
 fn upper11(n: &[u8; 11]) -> [u8; 11] {
     let mut o = *n;
-    for b in o.iter_mut() {
+    for (i, b) in o.iter_mut().enumerate() {
+        // a lead byte 0xE5 is kept: such an entry is stored with 0x05 in its place (a third-party
+        // entry, which no 8.3 string names any more since the parser upper-cases ISO-8859-1)
+        if i == 0 && *b == 0xE5 {
+            continue;
+        }
         *b = names::latin1_upper(*b);
     }
     o
+}
+
+/// pool names, some of them with the lead byte 0xE5 (stored as 0x05 on the medium)
+fn entry_name() -> impl Strategy<Value = [u8; 11]> {
+    (gen::pool_name(), 0u8..12).prop_map(|(mut n, k)| {
+        if k == 0 {
+            n[0] = 0xE5;
+        }
+        n
+    })
 }
 
 pub fn build_items(items: &[Item], fat32: bool, lfn_cap: usize) -> (Vec<Slot>, Vec<Expect>) {
@@ -894,11 +909,11 @@ pub fn item_strategy(c17_bias: bool) -> BoxedStrategy<Item> {
     let w_lfn = if c17_bias { 6 } else { 2 };
     let w_broken = if c17_bias { 6 } else { 1 };
     prop_oneof![
-        6 => (gen::pool_name(), gen::file_attr(), prop_oneof![Just(0u32), (1u32..3000)], any::<u32>(), prop::bool::weighted(0.2))
+        6 => (entry_name(), gen::file_attr(), prop_oneof![Just(0u32), (1u32..3000)], any::<u32>(), prop::bool::weighted(0.2))
             .prop_map(|(name, attr, size, seed, dir)| Item::Short { name, attr, size, seed, dir }),
         3 => (gen::pool_name(), any::<[u8; 20]>()).prop_map(|(name, rest)| Item::Deleted { name, rest }),
-        w_lfn => (units_strategy(), gen::pool_name(), prop_oneof![Just(0u32), (1u32..2000)], any::<u32>()).prop_map(|(units, name, size, seed)| Item::LfnGood { units, name, size, seed }),
-        w_broken => (broken_kind(), units_strategy(), gen::pool_name()).prop_map(|(kind, units, name)| Item::LfnBroken { kind, units, name }),
+        w_lfn => (units_strategy(), entry_name(), prop_oneof![Just(0u32), (1u32..2000)], any::<u32>()).prop_map(|(units, name, size, seed)| Item::LfnGood { units, name, size, seed }),
+        w_broken => (broken_kind(), units_strategy(), entry_name()).prop_map(|(kind, units, name)| Item::LfnBroken { kind, units, name }),
         w_broken => gen::pool_name().prop_map(|name| Item::CsumTwin { name }),
         1 => units_strategy().prop_map(|units| Item::Orphan { units }),
         1 => prop_oneof![Just(0x4242u16), Just(0x4343u16)].prop_map(|tail| Item::LfnSpelling { tail }),
